@@ -20,7 +20,8 @@ MODES = ["option", "constant", "own", "free"]
 FIELD_KINDS = ["scalar", "scalar+constraints", "scalar+constraints+nullable", "scalar+default", "constant", "constant+nullable",
                "ref-to-struct", "ref-to-enum+default", "ref-to-constant", "ref-to-constant-other-package",
                "ref-to-constant+optional", "ref-to-constant-other-package+nullable", "ref-to-constant-via-alias",
-               "constant_ref", "array", "map", "struct", "enum+default", "disj", "inter", "slot", "ref-unresolved"]
+               "constant_ref", "array", "map", "struct", "enum+default", "disj", "inter", "slot", "ref-unresolved",
+               "scalar+constraints+operator-repeated", "array+default+empty-collection", "ref-to-struct+default+empty-collection"]
 OBJECT_KINDS = ["struct", "alias-of-struct", "alias-chain-of-struct", "alias-chain-crossing-packages-of-struct",
                 "alias-chain-crossing-packages-of-scalar", "alias-of-enum", "alias-of-constant", "alias-of-array",
                 "enum", "scalar", "constant", "array", "map", "disj"]
@@ -129,7 +130,7 @@ def run(ctx):
             ("chains", "BuildersDeepMC", "BuildersDeepMC.cfg", {"Mode": '"chains"'}, None, 8),
             ("fields", "BuildersDeepMC", "BuildersDeepMC.cfg", {"Mode": '"fields"'}, None, 8),
             # seeded random walks (num is per worker): every successor of every visited schema set is a case
-            ("walk", "BuildersDeepMC", "BuildersDeepMC.cfg", {"Mode": '"walk"', "MaxObjs": 5}, "num=7", 4),
+            ("walk", "BuildersDeepMC", "BuildersDeepMC.cfg", {"Mode": '"walk"', "MaxObjs": 5}, "num=6", 4),
         ]
     per_universe = {}
     for name, module, cfg, cs, sim, workers in universes:
@@ -184,7 +185,7 @@ def run(ctx):
         "distinct_nontrivial": judged,
         "rule": "one evaluation = one schema set (a TLC state) on which the real BuilderGenerator.FromAST ran and was compared, conjunct by "
                 "conjunct, with Derive(S), and whose real result was judged again by TLC (C16Violated). Universe 'pairs': object Main with one "
-                "field kind or an ordered pair of two of 28 field kinds x 6 surroundings (plain; alias chains whose second hop crosses into a "
+                "field kind or an ordered pair of two of 33 field kinds x 6 surroundings (plain; alias chains whose second hop crosses into a "
                 "loaded second package next to same-named objects of another kind; aliases of structs / alias chains / aliases of enums and "
                 "constants declared before their targets; non-struct objects; second package not loaded; alias of an unloaded object)%s. "
                 "Universe 'pipeline': 2 schema sets x 7 lists of final passes (prefix_objects_names, retype_field, omit, rename_object, omit_fields) x 5 "
